@@ -80,15 +80,19 @@ def count_emit(case):
     return sum(f["src"].count(".emit") for f in G.rust_files(case))
 
 
-def evaluate(cases, judge_property=True):
-    """cases -> list of Outcome. judge_property=False: only the correspondence is judged."""
+def evaluate(cases, judge_property=True, observed=None):
+    """cases -> list of Outcome. judge_property=False: only the correspondence is judged.
+    observed: what a run left behind for each case (histories); default: one fresh CLI run per case."""
     for i, c in enumerate(cases):
         c["id"] = i
         c["files"] = sorted(c["files"], key=lambda f: f["name"].split("/"))     # PathBuf order = the model's file order
     hcases = [{"id": c["id"], "files": G.rust_files(c), "mappings": c.get("mappings", {})} for c in cases]
     hobs = vlib.run_harness("c12-events", hcases, per_case_timeout=20)
-    with vlib.Sandbox("c12") as sb:
-        cli = vlib.pmap(lambda ic: run_cli(sb, ic[0], ic[1]), list(enumerate(cases)))
+    if observed is not None:
+        cli = observed
+    else:
+        with vlib.Sandbox("c12") as sb:
+            cli = vlib.pmap(lambda ic: run_cli(sb, ic[0], ic[1]), list(enumerate(cases)))
     sexps = [G.case_sexp(c, o["events_ts"], o["index_ts"]) for c, o in zip(cases, cli)]
     res = vlib.run_runner("c12-case", sexps)
     outs = []
@@ -157,13 +161,110 @@ def evaluate(cases, judge_property=True):
     return outs
 
 
+# ------------------------------------------------------------------ run histories into one output directory
+def stamp(path):
+    try:
+        st = os.stat(path)
+        return (st.st_mtime_ns, st.st_ino, st.st_size)
+    except OSError:
+        return None
+
+
+def run_history(sb, idx, hist):
+    """hist = {"entry": "cli" | "build", "steps": [case, ...]}: the versions of one project, generated one after the other,
+    unforced, into the same output directory. Returns one observation per step (what the directory holds after it)."""
+    import subprocess
+    root = sb.path("h%d" % idx)
+    obs = []
+    for k, case in enumerate(hist["steps"]):
+        src = os.path.join(root, "src-tauri")
+        shutil.rmtree(src, ignore_errors=True)
+        for f in G.rust_files(case):
+            name = f["name"][4:] if f["name"].startswith("src/") else f["name"]
+            sb.write(os.path.join("h%d" % idx, "src-tauri", name), f["src"])
+        cfg = {"project_path": "./src-tauri", "output_path": "./gen", "validation_library": "zod" if case.get("zod") else "none"}
+        if case.get("mappings"):
+            cfg["type_mappings"] = case["mappings"]
+        sb.write(os.path.join("h%d" % idx, "typegen.json"), json.dumps(cfg))
+        before = {"ev": stamp(os.path.join(root, "gen", "events.ts"))}
+        if hist["entry"] == "cli":
+            rc, out = sb.cli(["generate", "-c", "typegen.json"], cwd=root)
+        else:
+            try:
+                r = subprocess.run([vlib.harness_bin("c12"), "build"], input=json.dumps({"id": k, "dir": root}) + "\n", cwd=root,
+                                   stdout=subprocess.PIPE, stderr=subprocess.STDOUT, text=True, env=vlib.ENV, timeout=120)
+                out = r.stdout
+                rc = 0 if '"ok":true' in out else 1
+            except subprocess.TimeoutExpired:
+                rc, out = -1, "TIMEOUT"
+        gen = os.path.join(root, "gen")
+        ev, ix = read_opt(os.path.join(gen, "events.ts")), read_opt(os.path.join(gen, "index.ts"))
+        after = stamp(os.path.join(gen, "events.ts"))
+        # a leftover of an earlier run that this run neither wrote nor re-exports is not "the events module" of this run
+        stale = ev is not None and after == before.get("ev") and "./events" not in (ix or "")
+        obs.append({"rc": rc, "events_ts": None if stale else ev, "index_ts": ix, "stale_events_ts": stale,
+                    "files": sorted(os.listdir(gen)) if os.path.isdir(gen) else [], "out": out[-400:] if rc != 0 else ""})
+    shutil.rmtree(root, ignore_errors=True)
+    return obs
+
+
+def evaluate_histories(hists):
+    """After EVERY run of a history the output directory is judged against the version of the sources that run saw:
+    same model (generation is a function of the current sources), same oracle. One Outcome per history."""
+    with vlib.Sandbox("c12h") as sb:
+        allobs = vlib.pmap(lambda ih: run_history(sb, ih[0], ih[1]), list(enumerate(hists)))
+    flat_cases, flat_obs, owner = [], [], []
+    for i, (h, obs) in enumerate(zip(hists, allobs)):
+        for k, (c, o) in enumerate(zip(h["steps"], obs)):
+            flat_cases.append(json.loads(json.dumps(c)))
+            flat_obs.append(o)
+            owner.append((i, k))
+    outs = evaluate(flat_cases, True, observed=flat_obs)
+    res = []
+    by = {}
+    for (i, k), o in zip(owner, outs):
+        by.setdefault(i, []).append((k, o))
+    for i, h in enumerate(hists):
+        steps = by.get(i, [])
+        corr = all(o.corr for _, o in steps) and len(steps) == len(h["steps"])
+        ok = all(o.ok for _, o in steps)
+        bad = next(((k, o) for k, o in steps if not (o.ok and o.corr)), None)
+        kf = None
+        if not ok and all(o.ok or o.kf for _, o in steps):
+            kf = next(o.kf for _, o in steps if not o.ok)
+        detail = {"entry": h["entry"], "edits": h.get("edits"), "steps": len(h["steps"])}
+        if bad:
+            detail["failing_step"] = bad[0]
+            detail.update(bad[1].detail)
+        elif steps:
+            detail["in_domain"] = all(o.detail.get("in_domain") for _, o in steps)
+            detail["classes"] = sorted({c for _, o in steps for c in o.detail.get("classes", [])})
+        res.append(Outcome({"history": {"entry": h["entry"], "edits": h.get("edits"), "steps": [o.case for _, o in steps]}}, corr, ok, kf=kf,
+                           detail=detail, nontrivial=True))
+    return res
+
+
 def corpus_cases():
     d = os.path.join(vlib.VERIF, "corpus", "C12")
     out = []
     if os.path.isdir(d):
         for n in sorted(os.listdir(d)):
             if n.endswith(".json"):
-                out.append(json.load(open(os.path.join(d, n)))["case"])
+                c = json.load(open(os.path.join(d, n)))["case"]
+                if "history" not in c:
+                    out.append(c)
+    return out
+
+
+def corpus_histories():
+    d = os.path.join(vlib.VERIF, "corpus", "C12")
+    out = []
+    if os.path.isdir(d):
+        for n in sorted(os.listdir(d)):
+            if n.endswith(".json"):
+                c = json.load(open(os.path.join(d, n)))["case"]
+                if "history" in c:
+                    out.append(c["history"])
     return out
 
 
@@ -205,6 +306,11 @@ def run(rep):
         outs = evaluate(cases, judge)
         rep.extra.setdefault("distribution", {})[name] = dist(outs)
         rep.add(name, outs)
+    hists = corpus_histories() + G.enum_histories(rng, 1500 if thorough else 160)
+    outs = evaluate_histories(hists)
+    rep.extra.setdefault("distribution", {})["histories"] = dist(outs)
+    rep.extra["history_runs"] = sum(len(h["steps"]) for h in hists)
+    rep.add("histories", outs)
 
 
 def replay(rep, payload):
@@ -213,4 +319,7 @@ def replay(rep, payload):
     vlib.build_repo_bin()
     items = payload.get("disagreeing_cases") or [payload]
     for it in items:
-        rep.add(it.get("stream", "replay"), evaluate([dict(it["case"])], it.get("stream") != "malformed"))
+        if "history" in it["case"]:
+            rep.add("histories", evaluate_histories([it["case"]["history"]]))
+        else:
+            rep.add(it.get("stream", "replay"), evaluate([dict(it["case"])], it.get("stream") != "malformed"))
